@@ -27,6 +27,12 @@ Definition res_eqb {A} (eqb : A -> A -> bool) (x y : res A) : bool :=
 (* ---- fixed-width integers --------------------------------------------- *)
 Definition wrap32 (z : Z) : Z := ((z + 2147483648) mod 4294967296) - 2147483648.
 Definition wrap64 (z : Z) : Z := ((z + 9223372036854775808) mod 18446744073709551616) - 9223372036854775808.
+Definition wrapu64 (z : Z) : Z := z mod 18446744073709551616.
+Definition wrapu32 (z : Z) : Z := z mod 4294967296.
+Definition wrapu16 (z : Z) : Z := z mod 65536.
+Definition wrapu8 (z : Z) : Z := z mod 256.
+Definition wrap16 (z : Z) : Z := ((z + 32768) mod 65536) - 32768.
+Definition wrap8 (z : Z) : Z := ((z + 128) mod 256) - 128.
 Definition min32 : Z := -2147483648.
 Definition max32 : Z := 2147483647.
 Definition in32 (z : Z) : Prop := -2147483648 <= z <= 2147483647.
